@@ -194,7 +194,7 @@ def run_c07(ctx):
     # 1. the mechanism, exhaustively; the constants of the pinned code must fail (the model can see both defects)
     def mc():
         return ctx.tlc("YangLexerMC", "YangLexerMC.cfg", workers=8, timeout=800, heap="8g",
-                       consts={"MaxLen": 6 if q else 10, "Alphabet": ALPHABET})
+                       consts={"MaxLen": 6 if q else 12, "Alphabet": ALPHABET})
 
     def pin(cfg, needle, what):
         def f():
@@ -216,6 +216,21 @@ def run_c07(ctx):
     files = vec_files(g["dir"])
     vecs, results, fails, events = c07_round(ctx, files, "main", hooks)
     ctx.traces += len(vecs)
+    # binding self-test: a trace with one corrupted item extent must be rejected by the validator
+    tl = open(ctx.path("trace7_main.ndjson")).read().splitlines()[:400]
+    k = next((i for i, l in enumerate(tl) if '"ev":"emit"' in l and '"typ":"String"' in l), None)
+    if k is not None:
+        e = json.loads(tl[k])
+        e["end"] += 1
+        tl[k] = json.dumps(e, separators=(",", ":"))
+        last_init = max(i for i, l in enumerate(tl) if l.startswith('{"ev":"init"'))
+        if last_init <= k:
+            raise Infra("self-test: no complete run with a String item among the first trace events")
+        sp = ctx.path("selftest7.ndjson")
+        open(sp, "w").write("\n".join(tl[:last_init]) + "\n")
+        sf, _, _, _ = run_trace_tlc(ctx, "YangLexerTrace", "YangLexerTrace.cfg", sp, 1, lambda l: l.startswith('{"ev":"init"'))
+        if not any(f["id"] == e["id"] for f in sf):
+            raise Infra("self-test: YangLexerTrace accepted a trace with a corrupted item extent")
 
     # 3. verdicts
     def collect(vecs, results, fails):
@@ -256,14 +271,14 @@ def run_c07(ctx):
                rule="vectors = every text over 15 character classes up to the length bound in several spellings + TLC-sampled longer texts "
                     "+ repository YANG cut at random points; distinct = (state function in which the text ends, inside a block, last item)",
                samples=[dict(text=show(v["text"], 120), endsIn=v["endsIn"], result=r["ret"]) for v, r in list(zip(vecs, results))[7::max(1, len(vecs) // 3)]][:3],
-               mc_maxlen=6 if q else 10, trace_events=events, repo_texts=len(rts), truncated_texts=len(given),
+               mc_maxlen=6 if q else 12, trace_events=events, repo_texts=len(rts), truncated_texts=len(given),
                hang_budget_skipped=skipped, exhaustive=True,
                explanation="TLC explored the lexer/parser mechanism for every text to the length bound and every abort point (states), generated the "
                            "texts with their line geometry; every text was parsed by the real code under a watchdog with a goroutine dump, and the "
                            "channel events of every call were validated by YangLexerTrace")
     return ctx.finish(cov, [
         "the parser is abstracted to: consumes items, may stop at any item, succeeds only after EOF (all of parse.go's error exits go through Tree.recover)",
-        "close of the channel and the end of the goroutine are one step of the model; the harness polls the goroutine dump for up to 100 ms",
+        "close of the channel and the end of the goroutine are one step of the model; the harness polls the goroutine dump for up to 250 ms",
         "token boundaries that do not matter for C07 (word directly followed by a comment, // comment at the end of the text) are accepted either way by the trace validator; C10 judges them",
         "texts longer than the bound are sampled, not exhausted",
     ])
@@ -276,7 +291,8 @@ def c08_sig(v, r):
     val = v["expect"]
     empty_line = any(val[i] == 10 and (i == 0 or val[i - 1] == 10 or (val[i - 1] == 13 and i >= 2 and val[i - 2] == 10) or (val[i - 1] == 13 and i == 1))
                      for i in range(len(val)))
-    return dict(site="decode", what=what, forms="+".join(f["forms"]), emptyLineInValue=empty_line, crlf=f["crlf"], leadingPlus=f["leadingPlus"])
+    return dict(site="decode", what=what, emptyLineInValue=empty_line, crlf=f["crlf"], leadingPlus=f["leadingPlus"],
+                multiLine=f["lines"] > 1, concatenated=len(f["forms"]) > 1)
 
 
 def tree_trace_sig(f):
@@ -341,6 +357,14 @@ def run_c08(ctx):
         results = [x["r"] for x in read_ndjson(res)]
         if len(vecs) != len(results):
             raise Infra(f"run8 returned {len(results)} results for {len(vecs)} vectors")
+        # binding self-test: a vector with a perturbed expectation must be reported by the replayer
+        k = next((i for i, (v, r) in enumerate(zip(vecs, results)) if v["judged"] and r["ret"] == "ok" and r.get("equal")), None)
+        if k is not None:
+            sp, so = ctx.path("selftest8.ndjson"), ctx.path("selftest8.out")
+            write_ndjson(sp, [dict(vecs[k], expect=vecs[k]["expect"] + [97])])
+            ctx.run_bin("yp", ["run8", "-out", so, "-workers", "1", sp])
+            if read_ndjson(so)[0]["r"].get("equal") is not False:
+                raise Infra("self-test: yp run8 did not report a perturbed expectation")
         return vecs, results
 
     def long_strings():
@@ -419,6 +443,16 @@ def run_c10(ctx):
         results = [x["r"] for x in read_ndjson(res)]
         if len(vecs) != len(results):
             raise Infra(f"run10 returned {len(results)} results for {len(vecs)} vectors")
+        # binding self-test: a vector whose expected tree has a shifted line must be reported by the replayer
+        k = next((i for i, r in enumerate(results) if r["ret"] == "ok" and "diff" not in r and vecs[i]["tree"]["subs"]), None)
+        if k is not None:
+            v = json.loads(json.dumps(vecs[k]))
+            v["tree"]["subs"][-1]["line"] += 1
+            sp, so = ctx.path("selftest10.ndjson"), ctx.path("selftest10.out")
+            write_ndjson(sp, [v])
+            ctx.run_bin("yp", ["run10", "-out", so, "-workers", "1", sp])
+            if "diff" not in read_ndjson(so)[0]["r"]:
+                raise Infra("self-test: yp run10 did not report a perturbed expectation")
         return vecs, results
 
     def repo():
@@ -510,7 +544,7 @@ YP = ("TLA+ specs YangChars/YangLexer/YangString/YangTree: TLC model checking of
 MANIFEST = {
  "C07": dict(text="YangLexerMC models the lexer goroutine (one state per state function, blocking on every send) and the parser (consume, stop at any "
              "item, finish after EOF) over an unbuffered channel; TLC checks under fairness that both end on every text over 15 character classes to "
-             "length 6/10 and every abort point, that nothing is left when Parse returns, and that the constants describing the pinned code produce the "
+             "length 6/12 and every abort point, that nothing is left when Parse returns, and that the constants describing the pinned code produce the "
              "hang and the leak. Every class string to length 3/4 in several spellings, sampled longer texts and repository YANG cut at random points "
              "are parsed by the real code under a watchdog with a goroutine dump (error names the input and a position inside it, or root set), and "
              "the hook events of every call are validated against the mechanism by YangLexerTrace.",
